@@ -38,8 +38,20 @@ def programs(rng, tier):
     for _ in range(nrand):
         nv = rng.choice([3, 3, 4, 5, 6, 8])
         a, b, c = (rand_operand(rng, nv) for _ in range(3))
+        # the SAME operand in several positions (handed out by the harness as one object), with equal and with different flips
+        al = rng.random()
+        if al < 0.12:
+            b = a
+        elif al < 0.18:
+            c = b
+        elif al < 0.22:
+            c = a
+        elif al < 0.25:
+            b = c = a
         if rng.random() < 0.7:
             fa, fb, fo = (rand_optvar(rng, nv) for _ in range(3))
+            if b is a and rng.random() < 0.5:
+                fa = fb = rng.randrange(nv)
             if rng.random() < 0.15 and fa is not None:
                 fb = fa
             if rng.random() < 0.15 and fa is not None:
